@@ -12,7 +12,8 @@
    (1 cls n)       NewDefaultTransport over: cls 0 object with ReadableLen() = n; 1 object with
                    Len() = n only; 2 plain ReadWriter; 3 *bytes.Buffer holding n bytes;
                    4 a buffer transport (over n bytes) passed in again; 5 / 6 objects that have the whole
-                   TTransport method set themselves (RemainingBytes() = 3), with ReadableLen() = n / without
+                   TTransport method set themselves (RemainingBytes() = 3), with ReadableLen() = n / without;
+                   7 an object whose ReadableLen() is n at the first look and 0 at every later one
        output (remaining isBufferTransport forwardsOK closeNil)
    (2 steps)       registry; every case starts (and ends) with all three slots nil
        step (0 slot fid) Register<slot>(callback fid), fid = -1: Register<slot>(nil)
@@ -153,9 +154,9 @@ Definition check_hist (init : bytes) (hl : list cval) (out : cval) : verdict :=
 
 (* ---------- default transport ---------- *)
 Definition check_default (cls n : Z) (out : cval) : verdict :=
-  if negb (in_signedb 64 n) || (cls <? 0) || (6 <? cls) || (((cls =? 3) || (cls =? 4)) && (n <? 0)) then bad_case else
+  if negb (in_signedb 64 n) || (cls <? 0) || (7 <? cls) || (((cls =? 3) || (cls =? 4)) && (n <? 0)) then bad_case else
   let o : rw :=
-    if (cls =? 0) || (cls =? 5) then RWReadable n
+    if (cls =? 0) || (cls =? 5) || (cls =? 7) then RWReadable n
     else if cls =? 3 then RWBuffer (repeat 0%N (Z.to_nat n))
     else RWOther in
   let t := new_default_transport o in
@@ -166,7 +167,7 @@ Definition check_default (cls n : Z) (out : cval) : verdict :=
     | L [I r; I bt; I fw; I cl] =>
         (* readable length when a positive one is exposed, else unknown = max uint64;
            a *bytes.Buffer becomes a buffer transport: the unread length, zero included *)
-        (r =? (if (cls =? 0) || (cls =? 5) then (if 0 <? n then n else 18446744073709551615)
+        (r =? (if (cls =? 0) || (cls =? 5) || (cls =? 7) then (if 0 <? n then n else 18446744073709551615)
                else if cls =? 3 then n else 18446744073709551615))
         && (bt =? (if cls =? 3 then 1 else 0)) && (fw =? 1) && (cl =? 1)
     | _ => false
@@ -234,5 +235,8 @@ Definition check (c : cval) : verdict :=
   | L [L [I 0; B init; L hl]; out] => check_hist init hl out
   | L [L [I 1; I cls; I n]; out] => check_default cls n out
   | L [L [I 2; L steps]; out] => check_reg steps out
+  (* (3 rounds): three goroutines register the three DIFFERENT hooks at the same time, then each hook is
+     called: self-checked by the harness (every registration that returned is in effect) *)
+  | L [L [I 3; I _]; L [I ok]] => mk (ok =? 1) (ok =? 1) 60
   | _ => bad_case
   end.
